@@ -100,6 +100,35 @@ def _load(modname):
     return _MOD
 
 
+def run_case(mod, case) -> "CaseResult":
+    """check_case, with one rule about exceptions: an exception that escapes from LIBRARY code while the harness was
+    preparing or driving a case (building a valid state through the problem parser, grounding a type-correct call, ...)
+    is an observation about the library and is reported as a failure of the case; an exception raised by harness
+    code is a harness error and propagates."""
+    try:
+        return mod.check_case(case)
+    except CaseTimeout:
+        raise
+    except Exception as e:
+        tb = e.__traceback__
+        last = None
+        while tb is not None:
+            last = tb
+            tb = tb.tb_next
+        fname = os.path.realpath(last.tb_frame.f_code.co_filename) if last is not None else ""
+        lib_root = os.path.realpath(os.path.join(os.environ.get("PV_REPO", "/repo"), "pddl_plus_parser")) + os.sep
+        if not fname.startswith(lib_root):
+            raise
+        r = CaseResult()
+        r.nontrivial = True
+        r.fail("library-raised", f"the library raised {type(e).__name__}: {str(e)[:200]} at "
+               f"{os.path.relpath(fname, os.path.dirname(lib_root.rstrip(os.sep)))}:{last.tb_lineno} while the harness was "
+               f"driving a valid input of this case (not inside a guarded query): "
+               f"{traceback.format_exc()[-700:]}", "no exception", type(e).__name__, tags=["library-raised"])
+        r.outcome("library-raised")
+        return r
+
+
 def _run_chunk(arg):
     modname, chunk, per_case_timeout = arg
     mod = _load(modname)
@@ -109,7 +138,7 @@ def _run_chunk(arg):
     for idx, case in chunk:
         signal.alarm(per_case_timeout)
         try:
-            r = mod.check_case(case)
+            r = run_case(mod, case)
             signal.alarm(0)
         except CaseTimeout:
             agg["timeouts"] += 1
@@ -332,7 +361,7 @@ def recheck(modname: str, tier: str, k: int) -> int:
             break
         signal.alarm(getattr(mod, "CASE_TIMEOUT", 20))
         try:
-            out[i] = result_digest(mod.check_case(case))
+            out[i] = result_digest(run_case(mod, case))
         except Exception as e:  # noqa
             out[i] = f"raised:{type(e).__name__}"
         signal.alarm(0)
@@ -343,7 +372,7 @@ def recheck(modname: str, tier: str, k: int) -> int:
 def replay(modname: str, path: str) -> int:
     mod = _load(modname)
     j = json.load(open(path))
-    r = mod.check_case(j["case"])
+    r = run_case(mod, j["case"])
     if r.fails:
         for f in r.fails:
             print(f"STILL FAILS clause={f.clause} {f.detail}")
